@@ -192,6 +192,8 @@ class Gen(object):
             inject_multiway(body, self.rng)
         if getattr(self, 'blockfirst', False):
             inject_blockfirst(body, self.rng)
+        if getattr(self, 'loops', False):
+            inject_loops(body, self.rng)
         return body
 
 
@@ -271,6 +273,24 @@ def inject_multiway(body, rng, name='y'):
         body.append(bind())
     body.append(st)
     body.append(read)
+    return body
+
+
+def inject_loops(body, rng, name='v'):
+    """append nested loops where the INNER loop (a while, reachable in a region graph only through its own back edge) binds
+    `name` and the read sits in the outer loop body before it - reached on a later trip through the OUTER back edge - and
+    after the outer loop"""
+    read = {'k': 'expr', 'value': [('r', name, 0)]}
+    inner = {'k': 'while', 'test': [], 'body': [{'k': 'assign', 'targets': [('n', name, 0)], 'value': []}], 'lid': 901, 'orelse': []}
+    if rng.random() < 0.3:
+        inner = {'k': 'for', 'target': ('n', 'u', 0), 'iter': [], 'body': [{'k': 'assign', 'targets': [('n', name, 0)], 'value': []}], 'orelse': []}
+    ob = [dict(read), inner] + ([dict(read)] if rng.random() < 0.4 else [])
+    if rng.random() < 0.5:
+        outer = {'k': 'while', 'test': [], 'body': ob, 'lid': 900, 'orelse': []}
+    else:
+        outer = {'k': 'for', 'target': ('n', 'u', 0), 'iter': [], 'body': ob, 'orelse': []}
+    body.append(outer)
+    body.append(dict(read))
     return body
 
 
